@@ -264,6 +264,77 @@ def id_guard(ctx, M, RULE):
         ctx.check(ok, RULE, "%s|release-and-hook-only-if-id-present" % f.name,
                   "weight is released and the store-removal hook runs only if the id was still in the weight map, and the hook receives the key recorded with that id", f.where())
     ctx.floor(RULE, "release functions with a removal hook", n, 1)
+    # the hooks themselves: once the release function has dropped the id and its weight, the hook is all that is left to take
+    # the entry out of the store - every closure handed in as the removal hook removes the entry of the key it is given,
+    # unconditionally (a hook that looks again and keeps an entry it finds alive leaves a readable key charged nowhere)
+    hook_params = set()
+    for s in M.dec_sites:
+        f = s["fn"]
+        for b, t in f.calls():
+            if t["callee"].startswith("std::ops::Fn"):
+                o = f.op_origin(t["args"][0])
+                if o[0] == "param":
+                    hook_params.add((f.name, o[1]))
+    hook_closures = {}
+    work = list(hook_params)
+    seen_hp = set(work)
+    while work:
+        fn_, pi = work.pop()
+        for g in F.fns.values():
+            for b, t in g.calls():
+                if t.get("rpath") != fn_ or t["res"] != "item" or len(t["args"]) < pi:
+                    continue
+                a = g.op_origin(t["args"][pi - 1])
+                if a[0] == "param" and g.kind != "Closure":
+                    if (g.name, a[1]) not in seen_hp:
+                        seen_hp.add((g.name, a[1]))
+                        work.append((g.name, a[1]))
+                elif a[0] == "agg" and a[1] in F.fns and F.fns[a[1]].kind == "Closure":
+                    hook_closures[a[1]] = g.where(b)
+                elif a[0] == "field" and a[1] == ("env",) and g.kind == "Closure":
+                    from core import closure_captures
+                    cc = closure_captures(F, g.name)
+                    v = cc[1].get(a[2]) if cc else None
+                    if v is not None and v[0] == "agg" and v[1] in F.fns and F.fns[v[1]].kind == "Closure":
+                        hook_closures[v[1]] = g.where(b)
+                    elif v is not None and v[0] == "param" and (cc[0].name, v[1]) not in seen_hp:
+                        seen_hp.add((cc[0].name, v[1]))
+                        work.append((cc[0].name, v[1]))
+    from sym import ipaths
+    from storemodel import StoreModel
+    S_remove = set(StoreModel(ctx).remove_fns)
+    for cn in sorted(hook_closures):
+        c = F.fns[cn]
+        bad = []
+        n_p = 0
+        cpaths = ipaths(F, c, stop=lambda n_: False, depth=3)
+        if cpaths and all(not [e for e in p.events if not e.log] and not p.stores for p in cpaths):
+            # a do-nothing hook is right exactly where the caller has already taken the entry out itself (the worker's
+            # Delete: store removal first, then release of the id it found): every use of the function that passes it
+            # comes after a by-key store removal on the same path
+            g = F.parent_fn(c)
+            users = [(h, b) for h in F.fns.values() for b, t in h.calls() if t.get("rpath") == g.name and t["res"] == "item"]
+            badu = []
+            for h, b in users:
+                hs = ipaths(F, h, stop=lambda n_, gn=g.name: n_ == gn or n_ in S_remove, depth=2)
+                for p in hs:
+                    for e in p.calls({g.name}):
+                        if not any(x.seq < e.seq for x in p.calls(S_remove)):
+                            badu.append("%s releases through %s with a do-nothing hook on a path that has not removed the store entry" % (h.name.split("::")[-1], g.name.split("::")[-1]))
+            ctx.check(not badu, RULE, "%s|hook-removes-entry-unconditionally" % cn,
+                      "a do-nothing removal hook is used only after the caller removed the store entry itself (%d use(s))" % len(users), c.where(), "; ".join(sorted(set(badu))[:2]))
+            continue
+        for p in cpaths:
+            n_p += 1
+            rem = [e for e in p.events if dashmap_call(e.t) == ("remove", "S")]
+            if len(rem) != 1:
+                cond = [e for e in p.events if (dashmap_call(e.t) or ("",))[0] in ("remove_if", "remove_if_mut")]
+                bad.append("a path of the hook %s" % ("removes the entry only if a condition holds (remove_if)" if cond else "performs %d store removals" % len(rem)))
+            elif not mentions(rem[0].args[1], lambda s_: s_ == ("param", 2)):
+                bad.append("the hook removes another key than the one it is given")
+        ctx.check(not bad and n_p >= 1, RULE, "%s|hook-removes-entry-unconditionally" % cn,
+                  "the removal hook takes the entry of the key it is given out of the store on every path, whatever the entry looks like by then", c.where(), "; ".join(sorted(set(bad))[:2]))
+    ctx.floor(RULE, "removal hook closures", len(hook_closures), 1)
     # ids are fresh per incarnation
     kd = [a for a in F.adts if a.endswith("KeyDescription")]
     sites = []
